@@ -107,7 +107,7 @@ def hist_case(draw):
     # mostly few patches; sometimes hundreds (patch ids are int16: index arithmetic over
     # patches must not be done in a narrow integer type), around the widths where products
     # and sums of int8/uint8/int16 indices wrap
-    K = draw(st.one_of(st.integers(2, 6), st.integers(2, 6), st.integers(2, 6), st.integers(2, 6), st.integers(2, 6), st.integers(2, 6), st.sampled_from([127, 128, 129, 181, 182, 183, 200, 255, 256, 257, 300])))
+    K = draw(st.one_of(st.integers(2, 6), st.integers(2, 6), st.integers(2, 6), st.integers(2, 6), st.integers(2, 6), st.integers(2, 6), st.sampled_from([300, 257, 256, 255, 200, 183, 182, 181, 129, 128, 127])))
     n = draw(st.integers(K, K + 34))
     pid = list(range(K)) + draw(st.lists(st.integers(0, K - 1), min_size=n - K, max_size=n - K))
     z = draw(gen.redshift_values(n, edges))
